@@ -60,7 +60,7 @@ def in_stamp_sizes(rng, srcs, want=6):
             if not offs:
                 break
             o = rng.choice(offs)
-            x = o + rng.randint(1, 40)
+            x = o + (rng.randint(1, 40) if rng.random() < 0.5 else rng.randint(18, 30))      # (half of them among the seconds / fraction / zone)
             ks = [k for k in (1, 2, 3, 4, 5, 7) if x % k == 0 and x // k >= 64]
             if ks:
                 out.add(x // rng.choice(ks))
@@ -142,7 +142,8 @@ def gen_case(rng):
     srcs = merge.gen_sources(rng, n, target, max_msgs=rng.choice((3, 8, 20)),
                              containers=("plain", "plain", "gz", "bz2", "xz", "lz4"),
                              allow_degenerate=False, tie_heavy=True, crlf_p=rng.choice((0.0, 0.2)),
-                             preamble_p=0.0, first_line_max=60, safe_sizes=(64, 65536))
+                             preamble_p=0.0, first_line_max=60, safe_sizes=(64, 65536),
+                             notations=(1, 1, 2, 3, 0, 6, 6, 7), frac_choices=(3, 6, 6, 9, 1))
     return srcs
 
 
@@ -175,7 +176,7 @@ def run_case(seed, i, tier):
         srcs = gen_case(rng)
         base_opts = ["--color", "never", "--tz-offset", "+00:00"]
         expected = merge.model_stdout(srcs)
-    if not wild and rng.random() < 0.4:
+    if not wild and rng.random() < 0.5:
         # show the instant each message was given: a block boundary inside a stamp must not change what is parsed from it
         base_opts = base_opts + rng.choice((["-u", "-d", "%Y%m%dT%H%M%S%.9f|"], ["-u", "-d", "%Y%m%dT%H%M%S%.9f|", "-n"], ["-l", "-d", "%s%.6f "]))
         expected = None
